@@ -5,6 +5,9 @@
 #include <string.h>
 unsigned long vp_trace_in;
 int vp_symbolic_phase = 0;
+#ifndef VP_REALLOC_K
+#define VP_REALLOC_K 64      /* words copied by the loop model (512 bytes); larger blocks use the array primitives */
+#endif
 #ifndef VP_KEEP_CBMC_REALLOC
 void *realloc(void *p, size_t n)
 {
@@ -21,7 +24,16 @@ void *realloc(void *p, size_t n)
     /* set-up phase only: old and new sizes are concrete here, so CBMC's array primitives are exact (their defect
      * concerns symbolic lengths); first and last byte are re-checked as a guard against a silent miscopy */
     size_t o = __CPROVER_OBJECT_SIZE(p), m = o < n ? o : n;
-    if (m) {
+    if (m && m <= 8 * VP_REALLOC_K && (m & 7) == 0) {
+      /* word copy with a fixed trip count: exact for symbolic sizes too (CBMC's array primitives are not, see memcpy) */
+#pragma CPROVER check push
+#pragma CPROVER check disable "pointer"
+#pragma CPROVER check disable "bounds"
+#pragma CPROVER check disable "pointer-overflow"
+#pragma CPROVER check disable "signed-overflow"
+      for (size_t i = 0; i < VP_REALLOC_K && 8 * i < m; i++) ((unsigned long *) q)[i] = ((const unsigned long *) p)[i];
+#pragma CPROVER check pop
+    } else if (m) {
       char tmp[m];
       __CPROVER_array_copy(tmp, (const char *) p);
       __CPROVER_array_replace((char *) q, tmp);
@@ -43,8 +55,12 @@ void *realloc(void *p, size_t n)
 #ifndef VP_MEM_K
 #define VP_MEM_K 128
 #endif
+/* second tier: whole-structure operations (memset(obj, 0, sizeof *obj), struct array shifts) of constant size up to
+ * VP_MEM_BIG bytes are done word by word so that every field stays a known value. Only fixtures that run library
+ * set-up code need it (the driver defines VP_MEM_BIG=4096 for harnesses built on vp_seed.h / vp_mini.h); with a
+ * SYMBOLIC length the 512-iteration guarded loop is pure cost, so table harnesses leave it off. */
 #ifndef VP_MEM_BIG
-#define VP_MEM_BIG 4096
+#define VP_MEM_BIG 0
 #endif
 #ifndef VP_KEEP_CBMC_MEMCPY
 void *memcpy(void *dst, const void *src, size_t n)
@@ -53,6 +69,7 @@ void *memcpy(void *dst, const void *src, size_t n)
   __CPROVER_precondition(__CPROVER_r_ok(src, n), "memcpy source region readable");
   __CPROVER_precondition(n == 0 || !__CPROVER_same_object(dst, src) ||
                          (const char *) src >= (const char *) dst + n || (const char *) dst >= (const char *) src + n, "memcpy src/dst overlap");
+  __CPROVER_assume(__CPROVER_w_ok(dst, n) && __CPROVER_r_ok(src, n));
   if (n <= VP_MEM_K) {
 #pragma CPROVER check push
 #pragma CPROVER check disable "pointer"
@@ -86,6 +103,9 @@ void *memmove(void *dst, const void *src, size_t n)
 {
   __CPROVER_precondition(__CPROVER_w_ok(dst, n), "memmove destination region writeable");
   __CPROVER_precondition(__CPROVER_r_ok(src, n), "memmove source region readable");
+  /* a copy that leaves its objects has been reported just above: do not execute it (what symex would compute from the
+   * clobbered neighbours is meaningless and costs everything) */
+  __CPROVER_assume(__CPROVER_w_ok(dst, n) && __CPROVER_r_ok(src, n));
   if (n <= VP_MEM_K) {
     char tmp[VP_MEM_K]; unsigned long wtmp[VP_MEM_K / 8];
 #pragma CPROVER check push
@@ -101,6 +121,19 @@ void *memmove(void *dst, const void *src, size_t n)
     for (size_t i = 0; i < VP_MEM_K && i < n; i++) ((char *) dst)[i] = tmp[i];
     }
 #pragma CPROVER check pop
+  } else if (n <= VP_MEM_BIG && (n & 7) == 0 && (__CPROVER_POINTER_OFFSET(dst) & 7) == 0 && (__CPROVER_POINTER_OFFSET(src) & 7) == 0) {
+    /* arrays of structures shifted in place (constant size): word copies in the safe direction keep every field known */
+#pragma CPROVER check push
+#pragma CPROVER check disable "pointer"
+#pragma CPROVER check disable "bounds"
+#pragma CPROVER check disable "pointer-overflow"
+#pragma CPROVER check disable "signed-overflow"
+    if (!__CPROVER_same_object(dst, src) || __CPROVER_POINTER_OFFSET(dst) <= __CPROVER_POINTER_OFFSET(src)) {
+      for (size_t i = 0; i < VP_MEM_BIG / 8 && 8 * i < n; i++) ((unsigned long *) dst)[i] = ((const unsigned long *) src)[i];
+    } else {
+      for (size_t k = 0; k < VP_MEM_BIG / 8 && k < n / 8; k++) { size_t i = n / 8 - 1 - k; ((unsigned long *) dst)[i] = ((const unsigned long *) src)[i]; }
+    }
+#pragma CPROVER check pop
   } else {
     char src_n[n];
     __CPROVER_array_copy(src_n, (const char *) src);
@@ -112,6 +145,7 @@ void *memmove(void *dst, const void *src, size_t n)
 void *memset(void *s, int c, size_t n)
 {
   __CPROVER_precondition(__CPROVER_w_ok(s, n), "memset destination region writeable");
+  __CPROVER_assume(__CPROVER_w_ok(s, n));
   if (n <= VP_MEM_K) {
 #pragma CPROVER check push
 #pragma CPROVER check disable "pointer"
